@@ -133,6 +133,57 @@ fn named() {
 '''
 
 
+# caller-side constants whose names a macro might use for its own helper items: item names are not hygienic,
+# so a helper const declared in the same block as the (expanded) argument captures the caller's name
+HYGIENE_NAMES = ["STR", "LEN", "CONC", "ARR", "ARRAY", "SLICE", "SLICES", "SEP", "OUT", "ARGS", "S", "N", "L", "LENGTH", "RET", "ITEMS", "BUF", "CAP", "I", "X", "ITER", "LIST", "STRS", "CHARS", "TOTAL_LEN",
+                 "CONCAT", "JOINED", "BYTES", "UTF8", "TMP", "VAL", "THIS", "A", "B", "C", "T", "U", "RES", "ACC", "INPUT", "OUTPUT"]
+
+
+def hygiene_program(name):
+    return (PRELUDE + "const %(n)s: &str = \"fo\";\nmod other { pub const %(n)s: char = 'ñ'; }\n"
+            "const H0: &str = konst::string::str_concat!(&[%(n)s, \"bar\"]);\n"
+            "const H1: &str = konst::string::str_join!(%(n)s, &[\"a\", \"\", \"b\"]);\n"
+            "const H2: &str = konst::string::str_join!(\",\", &[%(n)s, %(n)s]);\n"
+            "const H3: &str = konst::string::from_iter!(&[%(n)s, \"z\"]);\n"
+            "const H4: [&str; 2] = konst::slice::slice_concat!(&str, &[&[%(n)s], &[\"q\"]]);\n"
+            "const H5: &str = konst::string::str_concat!(&['a', other::%(n)s]);\n"
+            "const H6: &str = konst::string::str_join!(other::%(n)s, &[%(n)s, \"x\"]);\n"
+            "fn main() {\n"
+            "    chk_str(0, \"str_concat!(&[%(n)s, ..])\", H0, [%(n)s, \"bar\"].concat());\n"
+            "    chk_str(1, \"str_join!(%(n)s, ..)\", H1, [\"a\", \"\", \"b\"].join(%(n)s));\n"
+            "    chk_str(2, \"str_join!(.., &[%(n)s, %(n)s])\", H2, [%(n)s, %(n)s].join(\",\"));\n"
+            "    chk_str(3, \"from_iter!(&[%(n)s, ..])\", H3, [%(n)s, \"z\"].concat());\n"
+            "    chk_arr(4, \"slice_concat!(.., &[&[%(n)s], ..])\", &H4, vec![%(n)s, \"q\"]);\n"
+            "    chk_str(5, \"str_concat!(&[.., other::%(n)s])\", H5, ['a', other::%(n)s].iter().collect());\n"
+            "    chk_str(6, \"str_join!(other::%(n)s, ..)\", H6, [%(n)s, \"x\"].join(&other::%(n)s.to_string()));\n"
+            "    println!(\"N\\t{}\", unsafe { EVALS });\n}\n") % {"n": name}
+
+
+def run_hygiene(cx, out, hist):
+    srcs = [cx.write("c20_hyg_%s.rs" % n, hygiene_program(n)) for n in HYGIENE_NAMES]
+    comp = cx.compile_many(srcs)
+    evals = 0
+    runnable = []
+    for n, src, (rc, se, outp) in zip(HYGIENE_NAMES, srcs, comp):
+        if rc is None:
+            raise kv.Inconclusive("watchdog: rustc did not finish on %s" % src)
+        if rc != 0:
+            out.fail("const-eval-error:caller-constant-name-captured", "concat macros", "caller constant named %s passed to str_concat!/str_join!/from_iter!/slice_concat! (%s)" % (n, src), first_error(se, 3)[:300], "evaluates like the std concat/join of the same constants", "rustc-const-eval", cmd="rustc " + src, source=src)
+        else:
+            runnable.append((n, src, outp))
+    for (n, src, b), (rc, so, se) in zip(runnable, cx.run_many([b for _, _, b in runnable])):
+        if rc != 0:
+            raise kv.Inconclusive("generated program %s exited with %s: %s" % (b, rc, (se or "")[-300:]))
+        for line in so.splitlines():
+            f = line.split("\t")
+            if f[0] == "FAIL":
+                out.fail("differs:" + f[2], f[2], "caller constant named %s" % n, f[3][:200], f[4][:200], "generated-program", cmd=b, source=src)
+            elif f[0] == "N":
+                evals += int(f[1])
+    hist["caller-constant-names"] = len(HYGIENE_NAMES)
+    return evals
+
+
 def run(out, tier, seed):
     thorough = tier == "thorough"
     cx = Ctx("c20")
@@ -178,11 +229,12 @@ def run(out, tier, seed):
                 out.fail(sig, f[2], "%s | %s" % (desc, (cases[cid][1] if cid < len(cases) else "")[:300]), f[3][:200], f[4][:200], "generated-program", cmd=b, source=src)
             elif f[0] == "N":
                 evals += int(f[1])
+    evals += run_hygiene(cx, out, hist)
     for kind, _, _, _ in cases:
         hist[kind] = hist.get(kind, 0) + 1
     nontrivial = sum(1 for c in cases if ("pieces=" in c[3] and c[3].count("'") >= 4) or "outer=" in c[3] or "chars=" in c[3])
     samples = ["const K: &str = %s;  vs  %s" % (c[1][:120], c[2][:100]) for c in cases[45:48]] + ["const K: &[u8] = %s" % cases[-30][1][:120]]
     out.add_counts("generated-programs", evals, "c20-consts", nontrivial, samples,
                    rule="one evaluation = one generated `const` item (str_concat!/str_join!/string::from_iter!/slice_concat!) evaluated by rustc and compared at run time with <[&str]>::concat / join / collect::<String> / <[&[T]]>::concat on the same literals (+ from_utf8 of the result); distinct_nontrivial = number of distinct argument lists with >= 2 pieces, char lists and slice_concat! lists",
-                   exhaustive="piece lists of 0..=4 pieces over {\"\",a,ñ,個🙂,ab} (all 781 at the thorough tier, all lists of <= 2 pieces + a seeded 10%% otherwise) x {concat, join with 4 str and 3 char separators, from_iter! plain/rev/filter/flat_map}; char lists of 0..=3 over {a,ñ,個,🙂,NUL}; char ranges incl. the surrogate gap; slice_concat! of u8/u32/&str over 0..=3 inner slices incl. empty outer and inner; named-const and const-fn argument forms")
+                   exhaustive="piece lists of 0..=4 pieces over {\"\",a,ñ,個🙂,ab} (all 781 at the thorough tier, all lists of <= 2 pieces + a seeded 10%% otherwise) x {concat, join with 4 str and 3 char separators, from_iter! plain/rev/filter/flat_map}; char lists of 0..=3 over {a,ñ,個,🙂,NUL}; char ranges incl. the surrogate gap; slice_concat! of u8/u32/&str over 0..=3 inner slices incl. empty outer and inner; named-const and const-fn argument forms; %d caller-side constant names (STR, LEN, CONC, ...) x 7 macro forms (item-name hygiene)" % len(HYGIENE_NAMES))
     out.hist.update({"c20/" + k: v for k, v in hist.items()})
